@@ -370,7 +370,10 @@ pub struct ExplicitLinks {
     pub expected_entries: Vec<String>,
 }
 
-pub fn check_explicit(case: &ExplicitLinks, _st: &mut Stats) -> Result<(), String> {
+pub fn check_explicit(case: &ExplicitLinks, st: &mut Stats) -> Result<(), String> {
+    if case.expected_entries.len() >= 2 {
+        st.nontrivial(case);
+    }
     let r = render(&CfgSpec::plain(), case.html.as_bytes(), case.width);
     let Rend::Ok(out) = r else { return Err(format!("not rendered: {:?}", r.kind())) };
     let lines: Vec<String> = out.lines().map(|l| l.to_string()).collect();
@@ -396,15 +399,58 @@ fn explicit_items() -> Vec<ExplicitLinks> {
     ]
 }
 
+/// Links whose whole content is a block element (a heading, list, quote, table ... inside <a>),
+/// enumerated: block kind x position of that link among three x width x outer context.
+fn block_link_items() -> Vec<ExplicitLinks> {
+    let blocks: &[(&str, &str)] = &[
+        ("<h2>", "</h2>"),
+        ("<p>", "</p>"),
+        ("<div>", "</div>"),
+        ("<ul><li>", "</li></ul>"),
+        ("<ol><li>", "</li></ol>"),
+        ("<blockquote>", "</blockquote>"),
+        ("<dl><dd>", "</dd></dl>"),
+        ("<dl><dt>", "</dt></dl>"),
+        ("<table><tr><td>", "</td></tr></table>"),
+        ("<pre>", "</pre>"),
+        ("<div><p>", "</p></div>"),
+    ];
+    let outers: &[(&str, &str)] = &[("", ""), ("<div>", "</div>"), ("<blockquote>", "</blockquote>"), ("<ul><li>", "</li></ul>")];
+    let mut v = vec![];
+    for (bo, bc) in blocks {
+        for pos in 0..3usize {
+            for (oo, oc) in outers {
+                for width in [12usize, 30, 80] {
+                    let mut html = String::from(*oo);
+                    let mut exp = vec![];
+                    for k in 0..3usize {
+                        let href = format!("/{}", k + 1);
+                        if k == pos {
+                            html.push_str(&format!("<a href=\"{}\">{}word{}{}</a>", href, bo, k, bc));
+                        } else {
+                            html.push_str(&format!("<p>text <a href=\"{}\">link{}</a> more</p>", href, k));
+                        }
+                        exp.push(format!("[{}]: {}", k + 1, href));
+                    }
+                    html.push_str(oc);
+                    v.push(ExplicitLinks { html, width, expected_entries: exp });
+                }
+            }
+        }
+    }
+    v
+}
+
 pub fn property() -> Property {
     Property {
         id: "C08",
         level: "exploration",
-        rule: "grammar documents (paragraphs, lists, quotes, headings, dl, tables incl. nested) with 0..40 links whose text nodes carry identifying characters, targets made of digits/punctuation (not unique, some longer than the width), plus shallow-empty links (no children, whitespace, <br>) and <a> without href; width 10..=120; plain / plain_no_decorate / trivial / rich x link_footnotes(true|false) x no_link_wrapping x do_decorate. Oracle: n = links with visible content (from the AST); enabled: the output ends with exactly one block that un-wraps (pieces cut exactly at the width) to `[k]: target_k`, k = 1..n, separated from the text by a blank line; on the document-order stream (table-free documents; raw-mode rendering for documents with tables) the last character of link k is followed (closing markup and block prefixes skipped) by `[k]`, and the references in the text are exactly 1..n once each; rich: link text carries Link(target_k), references do not; disabled: no `[k]`, no list. Non-trivial = >= 3 links with content in >= 2 containers; distinct by the whole case.",
+        rule: "grammar documents (paragraphs, lists, quotes, headings, dl, tables incl. nested) with 0..40 links whose text nodes carry identifying characters, targets made of digits/punctuation (not unique, some longer than the width), plus shallow-empty links (no children, whitespace, <br>) and <a> without href; width 10..=120; plain / plain_no_decorate / trivial / rich x link_footnotes(true|false) x no_link_wrapping x do_decorate. Oracle: n = links with visible content (from the AST); enabled: the output ends with exactly one block that un-wraps (pieces cut exactly at the width) to `[k]: target_k`, k = 1..n, separated from the text by a blank line; on the document-order stream (table-free documents; raw-mode rendering for documents with tables) the last character of link k is followed (closing markup and block prefixes skipped) by `[k]`, and the references in the text are exactly 1..n once each; rich: link text carries Link(target_k), references do not; disabled: no `[k]`, no list. Sub-check block_links (enumerated): a link whose whole content is one of 11 block constructs, at each position among three links, in 4 outer contexts, 3 widths: list and references as above. Non-trivial = >= 3 links with content in >= 2 containers; distinct by the whole case.",
         assumptions: vec!["bordered tables: list and numbering are checked through the raw-mode rendering of the same document plus the list of the bordered rendering (a reference can be split inside a narrow cell)", "deep-empty links are a known finding and not generated"],
         hang_is_violation: false,
         subs: vec![
             EnumSub::new("explicit", false, |_| explicit_items(), check_explicit).boxed(),
+            EnumSub::new("block_links", true, |_| block_link_items(), check_explicit).boxed(),
             PropSub::new("links", 30_000, 300_000, link_case, check_links).with_validity(|c| c.doc.valid() && c.width >= 10).boxed(),
         ],
     }
